@@ -725,7 +725,8 @@ func init() {
 			"recovery clause only when the device model reports an empty input line at a command prompt at the moment the call returned; the follow-up command carries a byte that occurs nowhere else",
 			"the stall is released only after no operation goroutine of the case is observed running (goroutine profile; one case per worker process at a time)",
 		},
-		Exhaustive:      func(tier string) bool { return true },
+		// not flagged exhaustive: every k is enumerated for the short exchanges, but the two ~150 kB NETCONF replies are sampled
+		Exhaustive:      func(tier string) bool { return false },
 		Gen:             gen,
 		Run:             run,
 		Workers:         func(string) int { return 16 },
